@@ -1,6 +1,7 @@
 package props
 
 import (
+	"bytes"
 	"encoding/hex"
 	"fmt"
 	"net"
@@ -93,7 +94,7 @@ func pfdPayload(fd string) []byte {
 // applyMut applies one drawn mutation to the message tree and describes it.
 func applyMut(t *rapid.T, m *model.Msg) mutDesc {
 	paths := model.Paths(m.IEs)
-	kind := rapid.SampledFrom([]string{"drop", "dup", "empty", "trunc", "retype", "swap", "unknown", "v6", "choose", "fd", "hdr", "flip", "zero"}).Draw(t, "mut")
+	kind := rapid.SampledFrom([]string{"drop", "dup", "empty", "trunc", "retype", "swap", "unknown", "v6", "choose", "fd", "hdr", "flip", "zero", "fqdn"}).Draw(t, "mut")
 	if len(paths) == 0 && kind != "hdr" && kind != "unknown" {
 		kind = "hdr"
 	}
@@ -195,6 +196,34 @@ func applyMut(t *rapid.T, m *model.Msg) mutDesc {
 				(*h)[i].Children = append((*h)[i].Children, n)
 			}
 		}
+	case "fqdn":
+		// a Node ID of the FQDN kind: DNS label encoding with well-formed, empty, non-UTF-8, over-long or
+		// length-inconsistent labels
+		h, i, p := pick(func(n *model.Node) bool { return n.Type == 60 })
+		if h == nil {
+			d.Op = "none"
+			return d
+		}
+		d.IE, d.Path = (*h)[i].Type, p
+		var name []byte
+		switch rapid.SampledFrom([]string{"ok", "empty", "nonutf8", "long", "badlen", "nul"}).Draw(t, "fqdnkind") {
+		case "ok":
+			name = []byte("\x03smf\x07example\x03org")
+		case "empty":
+		case "nonutf8":
+			name = []byte{4, 0xff, 0xfe, 0xc0, 0x80, 3, 'o', 'r', 'g'}
+		case "long":
+			for k := 0; k < 5; k++ {
+				name = append(name, 63)
+				name = append(name, bytes.Repeat([]byte{'a'}, 63)...)
+			}
+		case "badlen":
+			name = []byte{40, 'a', 'b'}
+		case "nul":
+			name = []byte{3, 'a', 0, 'b'}
+		}
+		(*h)[i].Payload = append([]byte{2}, name...)
+		d.Arg = fmt.Sprintf("%x", name)
 	case "v6":
 		h, i, p := pick(func(n *model.Node) bool { return v6Payload(n.Type) != nil })
 		if h == nil {
@@ -483,6 +512,10 @@ func runC01(c model.Case, ev *Ev) error {
 	}
 	defer cleanup(run)
 	nontriv := false
+	// intact: every injected datagram so far was dropped or answered with a rejection, so the association
+	// and session state that the history built must still be there
+	state, _ := c.Conf["state"].(string)
+	intact := state == "assoc" || state == "sess" || state == "modded"
 	for i, op := range c.Ops {
 		o := run.Exec(op)
 		if op.Kind != "raw" {
@@ -498,6 +531,22 @@ func runC01(c model.Case, ev *Ev) error {
 		if len(o.Extra) > 1 {
 			return fmt.Errorf("op %d: %d datagrams came back for one injected datagram %s", i, len(o.Extra), op.Raw)
 		}
+		if len(o.Sent) > 1 && o.Sent[1] == message.MsgTypeSessionReportResponse {
+			intact = false // a report response may legitimately end the session without any answer
+		}
+		for _, ans := range o.Extra {
+			am, err := message.Parse(ans)
+			if err != nil {
+				intact = false
+				continue
+			}
+			if am.MessageType() == message.MsgTypeHeartbeatResponse {
+				continue
+			}
+			if cause, ok := causeOf(am); !ok || cause == ie.CauseRequestAccepted {
+				intact = false // processed as a valid request: whatever it meant has happened
+			}
+		}
 		// classification for the evidence
 		if pm, err := message.Parse(o.Sent); err == nil && c01Dispatched[pm.MessageType()] {
 			nontriv = true
@@ -507,7 +556,22 @@ func runC01(c model.Case, ev *Ev) error {
 		}
 		ev.Class(fmt.Sprintf("%s|%v|%v", op.Note, mutKey(op.Extra["mut"]), c.Conf["state"]))
 	}
-	// (d) a valid scenario afterwards on the same peer and on another peer
+	// (d) nothing that was dropped or rejected may have cost the peer its association or its session: a valid
+	// request on the SAME association, without associating again, is processed normally
+	if intact {
+		var op model.Op
+		if state == "assoc" {
+			op = canonicalSess(40, 0, 0x90)[1]
+		} else {
+			op = model.Op{Kind: "mod", Peer: 0, Seq: 0x91, Sess: 0, Note: "any", UpdFARs: []model.FAR{{ID: 2, Action: model.ActDROP, HasFwd: true}}}
+		}
+		o := run.Exec(op)
+		if o.NoResp || !o.Accepted {
+			return fmt.Errorf("every injected datagram was dropped or rejected, yet a valid %s on the same association (state %q, no new Association Setup) is no longer processed normally: noresp=%v cause=%d\n%s", op.Kind, state, o.NoResp, o.Cause, c01Diag(r, o.CmdFrom))
+		}
+		ev.Label("same-association-follow-up")
+	}
+	// a valid scenario afterwards on the same peer and on another peer
 	for peer := 0; peer < 2; peer++ {
 		for j, op := range canonicalSess(50+peer, peer, uint32(0x100+peer*16)) {
 			o := run.Exec(op)
@@ -521,6 +585,43 @@ func runC01(c model.Case, ev *Ev) error {
 	}
 	ev.Case(c, nontriv, len(c.Ops))
 	return nil
+}
+
+func c01Diag(r *Rig, from int) string {
+	if r.P4 != nil {
+		f := from - 12
+		if f < 0 {
+			f = 0
+		}
+		return p4Diag(r, f)
+	}
+	return cmdDiag(r)
+}
+
+// causeOf extracts the Cause IE of a response.
+func causeOf(m message.Message) (uint8, bool) {
+	var c *ie.IE
+	switch x := m.(type) {
+	case *message.AssociationSetupResponse:
+		c = x.Cause
+	case *message.AssociationReleaseResponse:
+		c = x.Cause
+	case *message.PFDManagementResponse:
+		c = x.Cause
+	case *message.SessionEstablishmentResponse:
+		c = x.Cause
+	case *message.SessionModificationResponse:
+		c = x.Cause
+	case *message.SessionDeletionResponse:
+		c = x.Cause
+	default:
+		return 0, false
+	}
+	if c == nil {
+		return 0, false
+	}
+	v, err := c.Cause()
+	return v, err == nil
 }
 
 func mutKey(v any) string {
